@@ -911,16 +911,30 @@ impl Database {
                 TableFileHeader::from_bytes(page)?.root_page()
             };
 
+            // Rows already marked deleted are not migrated (re-wrapping them would clear the
+            // DELETE_BIT and bring them back); their entries are removed instead.
+            let mut dead_keys: Vec<Vec<u8>> = Vec::new();
             let all_keys: Vec<Vec<u8>> = {
                 let btree = BTree::new(&mut *storage, root_page)?;
                 let mut cursor = btree.cursor_first()?;
                 let mut keys = Vec::new();
                 while cursor.valid() {
-                    keys.push(cursor.key()?.to_vec());
+                    if crate::database::dml::mvcc_helpers::is_tombstone(cursor.value()?) {
+                        dead_keys.push(cursor.key()?.to_vec());
+                    } else {
+                        keys.push(cursor.key()?.to_vec());
+                    }
                     cursor.advance()?;
                 }
                 keys
             };
+
+            if !dead_keys.is_empty() {
+                let mut btree_mut = BTree::new(&mut *storage, root_page)?;
+                for key in &dead_keys {
+                    btree_mut.delete(key)?;
+                }
+            }
 
             for chunk in all_keys.chunks(BATCH_SIZE) {
                 let mut batch: Vec<(Vec<u8>, Vec<u8>)> = Vec::with_capacity(chunk.len());
